@@ -121,6 +121,8 @@ func (w *World) addr() common.Address { return w.U.Addrs[w.R.Intn(len(w.U.Addrs)
 
 // extra picks a contract-like address: code, self-destruct and (re)creation only ever happen to
 // those (an externally owned account with nonce >= 1 cannot be the target of CREATE or SELFDESTRUCT).
+var codePool = [][]byte{{0x60, 0x00, 0x60, 0x00, 0xf3}, {0x60, 0x01, 0x60, 0x00, 0x55, 0x00, 0xfe, 0x5b, 0x33, 0xff}}
+
 func (w *World) extra() common.Address { return w.Extras[w.R.Intn(len(w.Extras))] }
 
 func (w *World) amount() *big.Int {
@@ -175,6 +177,10 @@ func (w *World) AccountOp() {
 		}
 		code := make([]byte, r.Intn(40))
 		r.Read(code)
+		if r.Intn(2) == 0 {
+			// the same byte code is deployed again and again (factories, proxies, tokens)
+			code = codePool[r.Intn(len(codePool))]
+		}
 		w.log("SetCode %x len%d", a[:4], len(code))
 		st.SetCode(a, code)
 	case 5, 6, 7:
